@@ -183,7 +183,7 @@ def rule_R1_R2(ctx, f):
            "(e.g. acceptance on the FALSE edge of `a >= b`, or the last/only element is never tested) — [1.0, NaN, 2.0] or [NaN] would be accepted", site=n.span)
     # the accepting exit is reachable only through the loop's exit edge
     _, okb = result_assign_blocks(b)
-    ctx.ob("R1", "gate|ok-after-loop", all(b.dominates(exit_t, x) for x in okb), "Ok must be reachable only after the validation loop has finished", site=n.span)
+    ctx.ob("R1", "gate|ok-after-loop", all(b.dominates_ps(exit_t, x) for x in okb), "Ok must be reachable only after the validation loop has finished", site=n.span)
     # ---- R2
     pair = None
     via_get = []
@@ -311,7 +311,7 @@ def rule_R3(ctx, f):
                 ok = any(d[0] == "assign" and b.term_rvalue(d[3]) == fills[0].result_term() for d in b.defs().get(1, [])) or fills[0].matches("Vec::extend_from_slice")
     ctx.ob(rid, "default|empty-selects-default", ok, "an empty list must be replaced by DEFAULT_BUCKETS before validation", site=ie[0].span if ie else b.raw["span"]["at"])
     pops = [c for c in b.calls_to(["Vec::pop", "Vec::truncate", "Vec::remove"]) if peel(c.args[0]) == LIST]
-    ok = len(pops) == 1 and b.dominates(exit_t, pops[0].bb) and n.bb not in b.reach(pops[0].bb)
+    ok = len(pops) == 1 and b.dominates_ps(exit_t, pops[0].bb) and n.bb not in b.reach(pops[0].bb)
     ctx.ob(rid, "inf|pop-after-validation", ok, "the trailing +Inf may be dropped only after the whole list was validated (found %d pop sites)" % len(pops), site=pops[0].span if pops else b.raw["span"]["at"])
     if len(pops) == 1:
         guards = set()
@@ -325,11 +325,20 @@ def rule_R3(ctx, f):
         if not guards:
             for bi in b.reach(exit_t):
                 be = b.bool_edges(bi)
-                if be and be[0][0] == "binop" and be[0][1] == "Eq" and b.edge_dominates(bi, be[1], pops[0].bb):
+                # (the test may feed a `matches!` flag that is branched on afterwards: the pop is reached from the true edge only, literal flags followed)
+                if be and be[0][0] == "binop" and be[0][1] == "Eq" and (b.edge_dominates(bi, be[1], pops[0].bb) or
+                                                                        (b.dominates_ps(bi, pops[0].bb) and pops[0].bb in b.reach_ps(be[1]) and pops[0].bb not in b.reach_ps(be[2]))):
                     x, y = be[0][2], be[0][3]
                     infs = [z for z in (x, y) if is_pos_inf_const(z)]
-                    lasts = [z for z in (x, y) if is_call(peel(z, transparent=["Option::unwrap", "Option::expect"]), ["slice::last", "Vec::last"])]
-                    if len(infs) == 1 and len(lasts) == 1 and peel(peel(lasts[0], transparent=["Option::unwrap", "Option::expect"])[2][0]) == LIST:
+
+                    def _last_of(z):
+                        """the call `LIST.last()` whose value z is: through unwrap()/expect(), or as the payload of its Some arm (`Some(&tail) if tail == ..`)"""
+                        z = peel(z, transparent=["Option::unwrap", "Option::expect"])
+                        if isinstance(z, tuple) and len(z) == 3 and z[0] == "field" and str(z[2]) == "0" and isinstance(z[1], tuple) and z[1][0] == "downcast" and z[1][2] == "Some":
+                            z = peel(z[1][1], transparent=[])
+                        return z if is_call(z, ["slice::last", "Vec::last"]) else None
+                    lasts = [_last_of(z) for z in (x, y) if _last_of(z) is not None]
+                    if len(infs) == 1 and len(lasts) == 1 and peel(lasts[0][2][0], transparent=["Deref::deref", "Vec::as_slice"]) == LIST:
                         guards = {"is_sign_positive", "is_infinite"}     # `last == +Inf` is the same test
         if not guards:
             for bi in b.reach(exit_t):
